@@ -246,6 +246,8 @@ func (w *world) snapshotExists() map[string]bool {
 	return m
 }
 
+var nUnwritable int64
+
 var nRan, nSkipped, nRemoved, nKept, nMustKeep, nMustRemove, nDontCare int64
 
 func (w *world) trim() {
@@ -258,19 +260,38 @@ func (w *world) trim() {
 		before = []byte(*tt.content)
 		os.WriteFile(tp, before, 0o666)
 	}
+	// now and then the record cannot be read or rewritten at all (trim.txt is a non-empty directory,
+	// or a dangling symbolic link into a directory that does not exist): a trim is then due, it
+	// must still remove what is stale, and only the recording can fail
+	unwritable := w.rng.Intn(12) == 0
+	if unwritable {
+		os.RemoveAll(tp)
+		if w.rng.Intn(2) == 0 {
+			os.MkdirAll(filepath.Join(tp, "occupied"), 0o777)
+			tt = trimTxt{desc: "a non-empty directory", expect: 1}
+		} else {
+			os.Symlink(filepath.Join(w.dir, "no-such-dir", "t"), tp)
+			tt = trimTxt{desc: "a dangling symbolic link", expect: 1}
+		}
+		before = nil
+	}
 	w.logf("trim.txt := %s; Trim()", tt.desc)
 	if !w.hook {
 		w.now = time.Now()
 	}
 	t0 := time.Now()
-	if err := w.c.Trim(); err != nil {
+	if err := w.c.Trim(); err != nil && !unwritable {
 		w.fail("trim-error", err.Error())
 		return
 	}
 	t1 := time.Now()
 	after, aerr := os.ReadFile(tp)
 	var ran bool
-	if w.hook {
+	if unwritable {
+		os.RemoveAll(tp)
+		atomic.AddInt64(&nUnwritable, 1)
+		ran = true // due by the rules; what it removed is judged below, the record cannot be
+	} else if w.hook {
 		ran = aerr == nil && string(after) == fmt.Sprint(w.now.Unix())
 		if ran && tt.content != nil && string(before) == string(after) {
 			ran = false // indistinguishable from "did nothing": judged by the skip rules below
@@ -430,7 +451,7 @@ func runHistory(base string, hidx int, seed int64, hook bool) {
 func main() {
 	vlib.Main("C13", "exploration", 10*time.Minute, func(r *vlib.Run) {
 		run = r
-		r.Rule("histories: 1-5 action ids, 1-3 rounds of (2-11 stores/lookups of random kinds, then Trim) with time steps drawn from a boundary-heavy set (1ns, 1h-1ns, 1h, 1h+1ns, 5d-1ns, 5d, 5d+1ns, 5d+1h-1ns, 5d+1h, 5d+1h+1ns, days, months), 19 trim.txt variants (absent, empty, garbage, now, now-23h59m59s, now-24h, now+30m, now+2h, huge, negative, ...), non-entry files 400 days old in and beside the sub-directories. Hooked clock (VerifSetNow) for exact boundaries; a second workload with the real clock and ages simulated through mtimes (margins of 10 min). Every history has its own PRNG stream; non-trivial = history with at least one Trim call.")
+		r.Rule("histories: 1-5 action ids, 1-3 rounds of (2-11 stores/lookups of random kinds, then Trim) with time steps drawn from a boundary-heavy set (1ns, 1h-1ns, 1h, 1h+1ns, 5d-1ns, 5d, 5d+1ns, 5d+1h-1ns, 5d+1h, 5d+1h+1ns, days, months), 19 trim.txt variants, plus a record that can be neither read nor rewritten (a non-empty directory, a dangling symbolic link) (absent, empty, garbage, now, now-23h59m59s, now-24h, now+30m, now+2h, huge, negative, ...), non-entry files 400 days old in and beside the sub-directories. Hooked clock (VerifSetNow) for exact boundaries; a second workload with the real clock and ages simulated through mtimes (margins of 10 min). Every history has its own PRNG stream; non-trivial = history with at least one Trim call.")
 		r.Assume("a file's last use is the latest store of it or successful lookup touching it (Get: index entry; GetBytes/GetFile/OutputFile: output file too); entries with last use in [5d, 5d+1h] are don't-care; a trim.txt up to one hour in the future may or may not suppress the trim")
 		W := runtime.NumCPU()
 		base := vlib.Scratch()
@@ -443,6 +464,7 @@ func main() {
 			runHistory(base, h, r.SubSeed(fmt.Sprintf("real-%d", h)), false)
 		})
 		r.Set("trims_ran", atomic.LoadInt64(&nRan))
+		r.Set("trims_with_a_record_that_cannot_be_rewritten", atomic.LoadInt64(&nUnwritable))
 		r.Set("trims_skipped", atomic.LoadInt64(&nSkipped))
 		r.Set("entry_files_removed", atomic.LoadInt64(&nRemoved))
 		r.Set("entry_files_kept", atomic.LoadInt64(&nKept))
